@@ -4,6 +4,7 @@ package cl
 
 import (
 	"math"
+	"math/big"
 	"math/cmplx"
 
 	"github.com/ohler55/slip"
@@ -47,6 +48,25 @@ type Expt struct {
 // Call the function with the arguments provided.
 func (f *Expt) Call(s *slip.Scope, args slip.List, depth int) (result slip.Object) {
 	slip.CheckArgCount(s, depth, f, args, 2, 2)
+	if pow, ok := args[1].(slip.Fixnum); ok && 0 <= pow {
+		// A rational raised to a non-negative integer power is exact.
+		bp := big.NewInt(int64(pow))
+		switch base := args[0].(type) {
+		case slip.Fixnum:
+			return canonicalInteger(new(big.Int).Exp(big.NewInt(int64(base)), bp, nil))
+		case *slip.Bignum:
+			return canonicalInteger(new(big.Int).Exp((*big.Int)(base), bp, nil))
+		case *slip.Ratio:
+			var (
+				num big.Int
+				den big.Int
+				rat big.Rat
+			)
+			_ = num.Exp((*big.Rat)(base).Num(), bp, nil)
+			_ = den.Exp((*big.Rat)(base).Denom(), bp, nil)
+			return canonicalRational(rat.SetFrac(&num, &den))
+		}
+	}
 	if base, ok := args[0].(slip.Fixnum); ok {
 		if pow, ok2 := args[1].(slip.Fixnum); ok2 {
 			x := math.Pow(float64(base), float64(pow))
